@@ -819,6 +819,9 @@ func (it *Interp) binop(op token.Token, a, b Value, ta, tb types.Type) Value {
 				}
 				return c.BVSRem(x, y)
 			}
+			if it.hcfg != nil && it.hcfg.cur.AbstractURem && !y.IsConst() && op == token.REM {
+				return it.abstractURem(x, y)
+			}
 			if op == token.QUO {
 				return c.BVUDiv(x, y)
 			}
@@ -1229,4 +1232,25 @@ func (it *Interp) bitlenCmp(op token.Token, x, y *smt.Term) *smt.Term {
 	}
 	it.abort("unsupported use of symbolic BitLen() (op %v)", op)
 	return nil
+}
+
+// abstractURem replaces x % y (symbolic y) by a fresh value r constrained only by r < y, r <= x and
+// (x < y => r = x). This over-approximates the remainder: obligations proved under it hold for the real
+// remainder; a counterexample is re-checked with the exact definition before it is reported.
+func (it *Interp) abstractURem(x, y *smt.Term) *smt.Term {
+	c := it.C
+	key := [2]int{x.ID, y.ID}
+	if r, ok := it.P.uremMemo[key]; ok {
+		return r
+	}
+	r := c.Var(fmt.Sprintf("urem!%d!%d", x.ID, y.ID), x.Sort)
+	if it.P.uremMemo == nil {
+		it.P.uremMemo = map[[2]int]*smt.Term{}
+	}
+	it.P.uremMemo[key] = r
+	it.addPC(c.BVUlt(r, y))
+	it.addPC(c.BVUle(r, x))
+	it.addPC(c.Implies(c.BVUlt(x, y), c.Eq(r, x)))
+	it.P.Exact = append(it.P.Exact, c.Eq(r, c.BVURem(x, y)))
+	return r
 }
